@@ -819,6 +819,9 @@ async fn scenario_fault(
                 (Ok(ar), Ok((br, out, lost_ns))) => {
                     obs.accepted_session_without_namespace = lost_ns;
                     obs.both_ok = Some((ar.is_ok(), br.is_ok()));
+                    if fault.is_none() && !(ar.is_ok() && br.is_ok()) {
+                        obs.transport_bad.push(("healthy_session_succeeds".into(), format!("no fault was injected and both peers follow the protocol, but the session ended with initiator {} / acceptor {}", ar.as_ref().map(|_| "Ok".to_string()).unwrap_or_else(|e| format!("Err({})", short(&format!("{e:?}")))), br.as_ref().map(|_| "Ok".to_string()).unwrap_or_else(|e| format!("Err({})", short(&format!("{e:?}")))))));
+                    }
                     obs.sut_result = format!(
                         "alice={} bob={}",
                         ar.as_ref().map(|_| "Ok".to_string()).unwrap_or_else(|e| format!("Err({e})")),
